@@ -38,6 +38,7 @@ type Solver struct {
 	stdin   io.WriteCloser
 	defined map[string]bool
 	scopes  [][]string
+	script  [][]string // per scope: declarations, definitions and assertions (for one-shot re-solving)
 	Stats   SolverStats
 	log     *os.File
 	timeout int
@@ -71,7 +72,7 @@ func NewSolver(kind string, timeoutMs int) (*Solver, error) {
 		return nil, err
 	}
 	s := &Solver{kind: kind, cmd: cmd, stdin: stdin, in: bufio.NewWriterSize(stdin, 1<<16), out: bufio.NewReaderSize(stdout, 1<<16),
-		defined: map[string]bool{}, scopes: [][]string{nil}, timeout: timeoutMs}
+		defined: map[string]bool{}, scopes: [][]string{nil}, script: [][]string{nil}, timeout: timeoutMs}
 	if p := os.Getenv("VERIF_SMTLOG"); p != "" {
 		s.log, _ = os.CreateTemp("", "smt-*.smt2")
 	}
@@ -87,6 +88,10 @@ func NewSolver(kind string, timeoutMs int) (*Solver, error) {
 
 func (s *Solver) send(format string, args ...interface{}) {
 	str := fmt.Sprintf(format, args...)
+	if strings.HasPrefix(str, "(de") || strings.HasPrefix(str, "(assert") {
+		i := len(s.script) - 1
+		s.script[i] = append(s.script[i], str)
+	}
 	s.in.WriteString(str)
 	s.in.WriteByte('\n')
 	if s.log != nil {
@@ -114,6 +119,7 @@ func (s *Solver) Close() {
 func (s *Solver) Push() {
 	s.send("(push 1)")
 	s.scopes = append(s.scopes, nil)
+	s.script = append(s.script, nil)
 }
 
 func (s *Solver) Pop() {
@@ -122,6 +128,7 @@ func (s *Solver) Pop() {
 		delete(s.defined, n)
 	}
 	s.scopes = s.scopes[:len(s.scopes)-1]
+	s.script = s.script[:len(s.script)-1]
 	s.send("(pop 1)")
 }
 
@@ -300,4 +307,42 @@ func parseModel(txt string) map[string]uint64 {
 		}
 	}
 	return m
+}
+
+// Resolve re-asks the current assertions plus extra in fresh one-shot solver processes (different engines and a
+// longer time limit). Used when the incremental solver answers unknown on an assertion query.
+func (s *Solver) Resolve(extra *Term, seconds int) SatResult {
+	s.define(extra)
+	var sb strings.Builder
+	sb.WriteString("(set-logic ALL)\n")
+	for _, sc := range s.script {
+		for _, l := range sc {
+			sb.WriteString(l)
+			sb.WriteByte('\n')
+		}
+	}
+	fmt.Fprintf(&sb, "(assert %s)\n(check-sat)\n", refName(extra))
+	text := sb.String()
+	for _, cmdline := range [][]string{
+		{"z3-new", "-in", "-smt2", fmt.Sprintf("-T:%d", seconds)},
+		{"/usr/bin/z3", "-in", "-smt2", fmt.Sprintf("-T:%d", seconds)},
+		{"cvc5", "--lang=smt2", fmt.Sprintf("--tlimit=%d", seconds*1000)},
+	} {
+		cmd := exec.Command(cmdline[0], cmdline[1:]...)
+		cmd.Stdin = strings.NewReader(text)
+		out, _ := cmd.Output()
+		ans := strings.TrimSpace(string(out))
+		if strings.Contains(ans, "(error") {
+			continue
+		}
+		if strings.HasPrefix(ans, "unsat") {
+			s.Stats.Unsat++
+			return Unsat
+		}
+		if strings.HasPrefix(ans, "sat") {
+			s.Stats.Sat++
+			return Sat
+		}
+	}
+	return Unknown
 }
